@@ -82,6 +82,8 @@ class World(object):
         from placement.db.sqlalchemy import migration
         from sqlalchemy import event
 
+        from psim import mutants
+        self.mutant = mutants.apply_from_env()
         self.dir = _scratch_dir()
         self.dbpath = os.path.join(self.dir, 'placement.db')
         self.foreign_keys = foreign_keys
